@@ -3,8 +3,10 @@
 // The REAL EVM RetryV1EventHandler (over the real events.Listener and a fake chain client) and the REAL
 // Substrate RetryEventHandler are driven on ONE range holding several retry events - different
 // transactions / blocks, each with several deposits, several of them for the same destination - 48 times
-// per case on one long-lived handler object (Go randomises map iteration per loop).  Observed per
-// repetition: the groups that arrive on the message channel (id, destination, deposit nonces in order).
+// per case: 46 times on one long-lived handler object (Go randomises map iteration per loop; every fourth
+// time the neighbouring range is handled in between) and twice on new objects (a relayer restarted in
+// between).  Observed per repetition: the groups that arrive on the message channel (id, destination,
+// deposit nonces in order).
 package main
 
 import (
@@ -216,7 +218,8 @@ func retryOwner(c Case, i int) int {
 
 func runRetry(c Case) Obs {
 	ch := make(chan []*message.Message, 256)
-	var handle func() error
+	// mk builds a NEW handler object over the same chain data
+	var mk func() func(s, e *big.Int) error
 	s, e := big.NewInt(c.S), big.NewInt(c.E)
 	switch c.Kind {
 	case "evm":
@@ -237,8 +240,9 @@ func runRetry(c Case) Obs {
 				}
 			}
 		}
-		h := eventHandlers.NewRetryV1EventHandler(zerolog.Nop().With(), evmevents.NewListener(cl), fakeDH{}, ps, bridgeAddr, scanstack.DomainID, big.NewInt(5), ch)
-		handle = func() error { return h.HandleEvents(s, e) }
+		mk = func() func(s, e *big.Int) error {
+			return eventHandlers.NewRetryV1EventHandler(zerolog.Nop().With(), evmevents.NewListener(cl), fakeDH{}, ps, bridgeAddr, scanstack.DomainID, big.NewInt(5), ch).HandleEvents
+		}
 	case "substrate":
 		conn := &retrySubConn{blocks: map[uint64][]*parser.Event{}}
 		for i := range c.REvs {
@@ -255,18 +259,35 @@ func runRetry(c Case) Obs {
 				&registry.DecodedField{Name: "dest_domain_id", Value: types.NewU8(2)},
 			}})
 		}
-		h := sublistener.NewRetryEventHandler(zerolog.Nop().With(), conn, fakeSubDH{}, scanstack.DomainID, ch)
-		handle = func() error { return h.HandleEvents(s, e) }
+		mk = func() func(s, e *big.Int) error {
+			return sublistener.NewRetryEventHandler(zerolog.Nop().With(), conn, fakeSubDH{}, scanstack.DomainID, ch).HandleEvents
+		}
 	default:
 		panic("retry case of kind " + c.Kind)
 	}
 	o := Obs{}
-	for rep := 0; rep < retryReps; rep++ {
-		if err := handle(); err != nil {
+	once := func(handle func(s, e *big.Int) error) {
+		if err := handle(s, e); err != nil {
 			panic("retry handler failed: " + err.Error())
 		}
 		o.RRuns = append(o.RRuns, projectGroups(drain(ch), nil))
 	}
+	// the long-lived object: the same range again and again, every fourth time after the neighbouring range
+	// (another delivery in between; what it sends is not part of the observation)
+	handle := mk()
+	width := new(big.Int).Add(new(big.Int).Sub(e, s), big.NewInt(1))
+	for rep := 0; rep < retryReps-2; rep++ {
+		if rep%4 == 3 {
+			if err := handle(new(big.Int).Add(s, width), new(big.Int).Add(e, width)); err != nil {
+				panic("retry handler failed: " + err.Error())
+			}
+			drain(ch)
+		}
+		once(handle)
+	}
+	// a relayer restarted in between: new objects
+	once(mk())
+	once(mk())
 	return o
 }
 
